@@ -50,6 +50,9 @@ C16_html_capture_bogus_comment_slice_bounds = _sig('C16/html-capture-bogus-comme
 C16_html_capture_abutting_attributes = _sig('C16/html-capture-abutting-attributes')
 C16_html_capture_nul_in_text = _sig('C16/html-capture-nul-in-text')
 C16_html_capture_repeated_body_tag = _sig('C16/html-capture-repeated-body-tag')
+C16_html_capture_unquoted_value_trailing_slash = _sig('C16/html-capture-unquoted-value-trailing-slash')
+C16_html_capture_repeated_body_tag_panic = _sig('C16/html-capture-repeated-body-tag-panic')
+C05_html_offsets_repeated_body_tag_panic = _sig('C05/html-offsets-repeated-body-tag-panic')
 C16_html_capture_reparented_metadata = _sig('C16/html-capture-reparented-metadata')
 C16_html_capture_nonplain_markup_tree_differs = _sig('C16/html-capture-nonplain-markup-tree-differs')
 C20_duration_fractional_component = _sig('C20/duration-fractional-component')
